@@ -1012,4 +1012,5 @@ static void rlsls_gen(Ctx& ctx) {
     });
 }
 
+VK_FRESH_THREADS;
 VK_MAIN("C12")
